@@ -141,6 +141,9 @@ def cases(seed, tier):
             g = pg.group()
             handler = [msg(S, "null"), msg(S, "sleep", None, 0.3), msg(S, "null")]
             failing = [msg(S, "set", m, 4.0, group=g), msg(S, "wait", None, group=g)]
+            if j == 1 and rng.random() < 0.5:
+                # ... or a message the engine cannot execute at all (a command nobody registered): same rule
+                failing = [msg(S, "no_such_command", m)]
             if rng.random() < 0.5:
                 node = {"op": "try", "site": S(), "body": failing, "handlers": [{"exc": "Exception", "body": handler, "reraise": False}]}
             else:
@@ -222,7 +225,7 @@ def check(res):
 
     if str(res.case.get("variant", "")).startswith("handled-failure-then-pause"):
         # one operation failed once in the plan's eyes (the device keeps failing, but the plan asked only once)
-        thrown_all = [e for e in plan if e.d["what"] == "thrown" and str(e.d["exc"]).startswith(("Injected", "FailedStatus"))]
+        thrown_all = [e for e in plan if e.d["what"] == "thrown" and str(e.d["exc"]).startswith(("Injected", "FailedStatus", "InvalidCommand"))]
         res.notes["handled_failure_then_pause"] = 1
         if len(thrown_all) > 1:
             x = thrown_all[1]
